@@ -10,6 +10,8 @@ CONSTANTS
   Kinds = {}
   MaxEnv = 1000
   MaxFaults = 1000
+  MaxResign = 1000
+  ResignMods = {"none", "id", "head", "body"}
 CONSTRAINT Accepted
 POSTCONDITION Post
 CHECK_DEADLOCK FALSE
